@@ -439,7 +439,63 @@ static double lcg(void) { /* deterministic jitter in [-1,1) */
   return ((double)((lcg_state >> 33) & 0xffffff) / (double)0x800000) - 1.0;
 }
 
-/* run <dim 2|3> <n> <jitter seed> <metric iso|aniso|lin|coarse> <h hex> <passes e.g. acsmw...> */
+/* pole fixture (run dim code 5): one axis edge (0,0,0)-(0,0,1) surrounded by a closed fan of nsector tets
+   (n0,n1,p_k,p_k+1), ring points on the unit circle at z = 0.5, 2*nsector boundary triangles (ids 1, 2).  With more
+   than MAX_CELL_SPLIT = 100 sectors ref_split_edge refuses the axis edge with REF_INCREASE_LIMIT after the trial
+   vertex was created: the reject branch of ref_split_pass that ordinary meshes never reach. */
+static REF_STATUS pole_grid(REF_GRID *ref_grid_ptr, REF_INT nsector) {
+  REF_GRID ref_grid;
+  REF_NODE ref_node;
+  REF_INT node, k, n0, n1, cell;
+  REF_INT nodes[REF_CELL_MAX_SIZE_PER];
+  REF_DBL theta, vol;
+  RSS(ref_grid_create(ref_grid_ptr, ref_mpi), "create");
+  ref_grid = *ref_grid_ptr;
+  ref_node = ref_grid_node(ref_grid);
+  RSS(ref_node_add(ref_node, 0, &n0), "n0");
+  ref_node_xyz(ref_node, 0, n0) = 0.0;
+  ref_node_xyz(ref_node, 1, n0) = 0.0;
+  ref_node_xyz(ref_node, 2, n0) = 0.0;
+  RSS(ref_node_add(ref_node, 1, &n1), "n1");
+  ref_node_xyz(ref_node, 0, n1) = 0.0;
+  ref_node_xyz(ref_node, 1, n1) = 0.0;
+  ref_node_xyz(ref_node, 2, n1) = 1.0;
+  for (k = 0; k < nsector; k++) {
+    theta = 2.0 * 3.14159265358979323846 * (REF_DBL)k / (REF_DBL)nsector;
+    RSS(ref_node_add(ref_node, (REF_GLOB)(2 + k), &node), "ring");
+    ref_node_xyz(ref_node, 0, node) = cos(theta);
+    ref_node_xyz(ref_node, 1, node) = sin(theta);
+    ref_node_xyz(ref_node, 2, node) = 0.5;
+  }
+  RSS(ref_node_initialize_n_global(ref_node, (REF_GLOB)(2 + nsector)), "ng");
+  for (k = 0; k < nsector; k++) {
+    REF_INT pk = 2 + k, pk1 = 2 + (k + 1) % nsector;
+    nodes[0] = n0;
+    nodes[1] = n1;
+    nodes[2] = pk;
+    nodes[3] = pk1;
+    RSS(ref_node_tet_vol(ref_node, nodes, &vol), "vol");
+    if (vol < 0.0) {
+      nodes[2] = pk1;
+      nodes[3] = pk;
+    }
+    RSS(ref_cell_add(ref_grid_tet(ref_grid), nodes, &cell), "tet");
+    nodes[0] = n0;
+    nodes[1] = pk1;
+    nodes[2] = pk;
+    nodes[3] = 1;
+    RSS(ref_cell_add(ref_grid_tri(ref_grid), nodes, &cell), "tri");
+    nodes[0] = n1;
+    nodes[1] = pk;
+    nodes[2] = pk1;
+    nodes[3] = 2;
+    RSS(ref_cell_add(ref_grid_tri(ref_grid), nodes, &cell), "tri");
+  }
+  return REF_SUCCESS;
+}
+
+/* run <dim 2|3|5> <n> <jitter seed> <metric iso|aniso|lin|coarse|pole> <h hex> <passes e.g. acsmw...>
+   (dim code 5: 3-D pole fixture with n sectors, 3 <= n <= 200) */
 static void run_level(void) {
   while (h_next(stdin)) {
     REF_GRID g = NULL;
@@ -457,11 +513,15 @@ static void run_level(void) {
     dim = (int)h_i(h_w[1]);
     nn = (REF_INT)h_i(h_w[2]);
     h = h_f(h_w[5]);
-    if ((dim != 2 && dim != 3) || nn < 2 || nn > 12 || !(h > 1e-3 && h < 1e3) || strlen(h_w[6]) > 24) {
+    if ((dim != 2 && dim != 3 && dim != 5) || nn < 2 || (nn > 12 && dim != 5) || (5 == dim && (nn < 3 || nn > 200)) ||
+        !(h > 1e-3 && h < 1e3) || strlen(h_w[6]) > 24) {
       fprintf(out, "bad-op\n");
       continue;
     }
-    if (3 == dim)
+    if (5 == dim) {
+      s = pole_grid(&g, nn);
+      dim = 3;
+    } else if (3 == dim)
       s = ref_fixture_tet_brick_args_grid(&g, ref_mpi, 0.0, 1.0, 0.0, 1.0, 0.0, 1.0, nn, nn, nn);
     else
       s = ref_fixture_twod_brick_grid(&g, ref_mpi, nn);
@@ -489,6 +549,8 @@ static void run_level(void) {
         hx = hy = hz = h * (0.3 + 1.4 * x);
       } else if (0 == strcmp(h_w[4], "bl")) {
         hy = h * (0.1 + 2.0 * y);
+      } else if (0 == strcmp(h_w[4], "pole")) { /* only the axis edge is long */
+        hx = hy = 4.0 * h;
       }
       if (2 == dim) hz = 1.0;
       ref_node_metric_form(ref_node, node, 1.0 / (hx * hx), 0, 0, 1.0 / (hy * hy), 0, 1.0 / (hz * hz));
